@@ -7,6 +7,7 @@ import (
 	"fmt"
 	"io"
 	"math/rand"
+	"net"
 	"net/http"
 	"os"
 	"os/exec"
@@ -41,10 +42,10 @@ type child struct {
 
 var reListen = regexp.MustCompile(`(TCP|HTTP): listening on (\S+)`)
 
-func startChild(bin, dir, trace, crash string) (*child, error) {
+func startChild(bin, dir, trace, crash string, extra ...string) (*child, error) {
 	c := &child{dir: dir, trace: trace, exited: make(chan struct{}), stderr: &strings.Builder{}}
-	c.cmd = exec.Command(bin, "--data-path", dir, "--tcp-address", "127.0.0.1:0", "--http-address", "127.0.0.1:0",
-		"--https-address", "127.0.0.1:0", "--broadcast-address", "127.0.0.1", "--mem-queue-size", "5")
+	c.cmd = exec.Command(bin, append([]string{"--data-path", dir, "--tcp-address", "127.0.0.1:0", "--http-address", "127.0.0.1:0",
+		"--https-address", "127.0.0.1:0", "--broadcast-address", "127.0.0.1", "--mem-queue-size", "5"}, extra...)...)
 	c.cmd.Env = append(os.Environ(), "VERIF_TRACE_FILE="+trace)
 	if crash != "" {
 		c.cmd.Env = append(c.cmd.Env, "VERIF_CRASH="+crash)
@@ -287,6 +288,10 @@ func metaMain(args []string) int {
 }
 
 func runMetaCase(bin, dir string, mc *metaCase) {
+	if mc.Kind == "handover" {
+		runHandover(bin, dir, mc)
+		return
+	}
 	rng := rand.New(rand.NewSource(mc.Seed))
 	data := filepath.Join(dir, "data")
 	os.MkdirAll(data, 0755)
@@ -404,10 +409,62 @@ func runMetaCase(bin, dir string, mc *metaCase) {
 				c.req("POST", fmt.Sprintf("/channel/create?topic=t1&channel=b%d", i))
 				mc.Ops++
 			}
+			c.req("POST", "/channel/create?topic=t2&channel=twin")
+			mc.Ops++
 			time.Sleep(100 * time.Millisecond)
 		}
 		var bw sync.WaitGroup
 		var amu sync.Mutex
+		if mc.Kind == "ackburst" {
+			// several clients ask for the SAME pause of the same object at the same moment (then the same unpause): whoever
+			// is answered 200 -- first or not -- must find it on disk, nobody asks for the opposite meanwhile
+			for _, target := range []struct{ path, name string }{{"/channel/%s?topic=t2&channel=twin", "t2/twin"}, {"/topic/%s?topic=t2", "t2"}} {
+				target := target
+				bw.Add(1)
+				go func() {
+					defer bw.Done()
+					for round := 0; round < 6; round++ {
+						verb := []string{"pause", "unpause"}[round%2]
+						want := verb == "pause"
+						var tw sync.WaitGroup
+						for k := 0; k < 3; k++ {
+							tw.Add(1)
+							go func() {
+								defer tw.Done()
+								st, _ := c.req("POST", fmt.Sprintf(target.path, verb))
+								if st != 200 {
+									return
+								}
+								b, err := os.ReadFile(filepath.Join(data, "nsqd.dat"))
+								if err != nil {
+									return
+								}
+								names, perr := topoFromDoc(b)
+								if perr != nil {
+									return
+								}
+								listed, onDisk := false, false
+								for _, nm := range names {
+									if nm == target.name {
+										listed = true
+									}
+									if nm == target.name+"!P" {
+										onDisk = true
+									}
+								}
+								if listed && onDisk != want {
+									amu.Lock()
+									mc.failf("one of three simultaneous POST %s requests for %s was answered 200 while nsqd.dat still has paused=%v: a kill now loses an acknowledged %s",
+										fmt.Sprintf(target.path, verb), target.name, onDisk, verb)
+									amu.Unlock()
+								}
+							}()
+						}
+						tw.Wait()
+					}
+				}()
+			}
+		}
 		stopSecond := int32(0)
 		var sw sync.WaitGroup
 		if secondBurst {
@@ -751,4 +808,116 @@ func snapshotsOf(trace string) map[string]bool {
 		}
 	}
 	return out
+}
+
+// eventTime: the clock reading ("now") of the first event of that name (and stage) in a child's trace file; 0 = none
+func eventTime(trace, ev, stage string) int64 {
+	b, err := os.ReadFile(trace)
+	if err != nil {
+		return 0
+	}
+	for _, line := range strings.Split(string(b), "\n") {
+		if !strings.Contains(line, "\""+ev+"\"") {
+			continue
+		}
+		var m map[string]interface{}
+		if json.Unmarshal([]byte(line), &m) != nil || m["ev"] != ev {
+			continue
+		}
+		if stage != "" && m["stage"] != stage {
+			continue
+		}
+		if f, ok := m["now"].(float64); ok {
+			return int64(f)
+		}
+	}
+	return 0
+}
+
+// runHandover: C06 "a second nsqd pointed at a data path that is in use refuses to start" -- also while the first one
+// is on its way out.  The first nsqd talks to an nsqlookupd that accepts connections and never answers, so its lookup
+// loop (one of the goroutines nsqd.Exit waits for) takes its time; SIGTERM; a second nsqd is started on the data path
+// over and over.  It may be admitted only after the first one has stopped everything (its NExit "stopped" event,
+// emitted right before it gives the data-path lock back): both clock readings come from the hooks.
+func runHandover(bin, dir string, mc *metaCase) {
+	data := filepath.Join(dir, "data")
+	os.MkdirAll(data, 0755)
+	ln, err := net.Listen("tcp", "127.0.0.1:0")
+	if err != nil {
+		mc.Incon = "listen: " + err.Error()
+		return
+	}
+	defer ln.Close()
+	go func() {
+		for {
+			cn, err := ln.Accept()
+			if err != nil {
+				return
+			}
+			go func() { io.Copy(io.Discard, cn); cn.Close() }() // reads, never answers
+		}
+	}()
+	traceA := filepath.Join(dir, "trace-a.ndjson")
+	a, err := startChild(bin, data, traceA, "", "--lookupd-tcp-address", ln.Addr().String())
+	if err != nil {
+		mc.Incon = "start: " + err.Error()
+		if a != nil {
+			a.kill()
+		}
+		return
+	}
+	defer a.kill()
+	rng := rand.New(rand.NewSource(mc.Seed))
+	for i := 0; i < 2+rng.Intn(3); i++ {
+		a.req("POST", fmt.Sprintf("/topic/create?topic=h%d", i))
+		a.req("POST", fmt.Sprintf("/channel/create?topic=h%d&channel=c", i))
+	}
+	time.Sleep(time.Duration(rng.Intn(300)) * time.Millisecond)
+	a.req("POST", "/channel/create?topic=h0&channel=late") // its notification keeps the lookup loop busy with the mute peer
+	a.cmd.Process.Signal(syscall.SIGTERM)
+	var admitted int64
+	attempts := 0
+	deadline := time.Now().Add(40 * time.Second)
+	for time.Now().Before(deadline) {
+		attempts++
+		tb := filepath.Join(dir, fmt.Sprintf("trace-b%d.ndjson", attempts))
+		b, errb := startChild(bin, data, tb, "")
+		if t := eventTime(tb, "NDataLock", ""); t != 0 {
+			admitted = t
+			if b != nil {
+				b.kill()
+			}
+			break
+		}
+		if b != nil && b.alive() {
+			b.kill()
+		}
+		_ = errb
+		if !a.alive() && attempts > 3 && eventTime(traceA, "NExit", "stopped") != 0 {
+			// the first one is gone and the data path still cannot be locked
+			time.Sleep(50 * time.Millisecond)
+		}
+		time.Sleep(15 * time.Millisecond)
+	}
+	mc.Ops = attempts
+	// let the first one finish (it was asked to stop gracefully)
+	select {
+	case <-a.exited:
+	case <-time.After(40 * time.Second):
+		mc.Incon = "the first nsqd did not exit within 40s of SIGTERM"
+		return
+	}
+	stopped := eventTime(traceA, "NExit", "stopped")
+	if stopped == 0 {
+		mc.Incon = "the first nsqd's shutdown left no NExit(stopped) event"
+		return
+	}
+	if admitted == 0 {
+		mc.failf("no nsqd could be started on the data path within 40s although the first one had stopped")
+		return
+	}
+	if admitted < stopped {
+		mc.failf("a second nsqd was admitted to the data path %d ms before the first one (SIGTERM, shutting down) had stopped its "+
+			"goroutines and given the lock back (attempt %d)", (stopped-admitted)/1e6, attempts)
+	}
 }
